@@ -247,6 +247,17 @@ extra8b = {
 for k, v in extra8b.items():
     lvl, tech, text, note, ref = claims[k]
     claims[k] = (lvl, tech, text + v, note, ref)
+# round-9 additions
+extra9 = {
+ 'C07': ' A function that runs a literal through SingleFlight.Do/DoEx writes the registry map only inside that literal (R13).',
+ 'C08': ' The decoder-output model (C17.R10: a YAML null stays null) runs under C08 (R19); the adapters\' pass-through rule follows variadic packs.',
+ 'C10': ' Finish/FinishVoid hand a non-empty list to the package\'s own pipeline exactly once with len(fns) workers and call nothing that recovers on its own (R12).',
+ 'C15': ' A weight computed by a helper over the whole node list is an accumulation too (R6).',
+ 'C20': ' No function of the ast and format packages replaces a pattern containing a line break in rendered text (R20; known finding F49: Writer.write edits the inside of multi-line tokens).',
+}
+for k, v in extra9.items():
+    lvl, tech, text, note, ref = claims[k]
+    claims[k] = (lvl, tech, text + v, note, ref)
 not_built_reason = 'static rules designed (DESIGN.md section 3) but not built yet in this revision'
 
 checks, na = [], []
